@@ -20,6 +20,9 @@ pub struct Cx<'a> {
     pub fams: &'a str,
     /// compare only the protected slot(s) of the structures (C02) instead of all bytes
     pub slots_only: bool,
+    /// expected bytes of the top-level protected slot, when they are known from the wire (a value
+    /// that was decoded and then edited must still contribute the bytes it was received with)
+    pub body_override: Option<&'a [u8]>,
 }
 
 impl<'a> Cx<'a> {
@@ -217,7 +220,7 @@ pub fn sign1(cx: &Cx, m: &CoseSign1, aads: &[&[u8]], detached: &[&[u8]], l: &mut
         Some(e) => e,
         None => return,
     };
-    let body = slot_bytes(&enc, &[0]).unwrap_or_default();
+    let body = cx.body_override.map(|b| b.to_vec()).unwrap_or_else(|| slot_bytes(&enc, &[0]).unwrap_or_default());
     let empty: Vec<u8> = vec![];
     for aad in aads {
         let want = sig_structure("Signature1", &body, None, aad, m.payload.as_ref().unwrap_or(&empty));
@@ -250,7 +253,7 @@ pub fn sign(cx: &Cx, m: &CoseSign, aads: &[&[u8]], detached: &[&[u8]], l: &mut L
         Some(e) => e,
         None => return,
     };
-    let body = slot_bytes(&enc, &[0]).unwrap_or_default();
+    let body = cx.body_override.map(|b| b.to_vec()).unwrap_or_else(|| slot_bytes(&enc, &[0]).unwrap_or_default());
     let empty: Vec<u8> = vec![];
     for (idx, sig) in m.signatures.iter().enumerate() {
         let sp = slot_bytes(&enc, &[3, idx, 0]).unwrap_or_default();
@@ -335,7 +338,7 @@ pub fn mac(cx: &Cx, m: &CoseMac, aads: &[&[u8]], l: &mut Local) {
         Some(e) => e,
         None => return,
     };
-    let body = slot_bytes(&enc, &[0]).unwrap_or_default();
+    let body = cx.body_override.map(|b| b.to_vec()).unwrap_or_else(|| slot_bytes(&enc, &[0]).unwrap_or_default());
     for aad in aads {
         let want = m.payload.as_ref().map(|p| mac_structure("MAC", &body, aad, p));
         verify_route(cx, l, 'M', "Mac.verify_tag", &m.tag, want.as_deref(), m.payload.is_none(), |c| m.verify_tag(aad, |t, d| c(t, d)));
@@ -359,7 +362,7 @@ pub fn mac0(cx: &Cx, m: &CoseMac0, aads: &[&[u8]], l: &mut Local) {
         Some(e) => e,
         None => return,
     };
-    let body = slot_bytes(&enc, &[0]).unwrap_or_default();
+    let body = cx.body_override.map(|b| b.to_vec()).unwrap_or_else(|| slot_bytes(&enc, &[0]).unwrap_or_default());
     for aad in aads {
         let want = m.payload.as_ref().map(|p| mac_structure("MAC0", &body, aad, p));
         verify_route(cx, l, 'M', "Mac0.verify_tag", &m.tag, want.as_deref(), m.payload.is_none(), |c| m.verify_tag(aad, |t, d| c(t, d)));
@@ -380,7 +383,7 @@ pub fn encrypt(cx: &Cx, m: &CoseEncrypt, aads: &[&[u8]], l: &mut Local) {
         Some(e) => e,
         None => return,
     };
-    let body = slot_bytes(&enc, &[0]).unwrap_or_default();
+    let body = cx.body_override.map(|b| b.to_vec()).unwrap_or_else(|| slot_bytes(&enc, &[0]).unwrap_or_default());
     let empty = vec![];
     for aad in aads {
         let want = enc_structure("Encrypt", &body, aad);
@@ -400,7 +403,7 @@ pub fn encrypt0(cx: &Cx, m: &CoseEncrypt0, aads: &[&[u8]], l: &mut Local) {
         Some(e) => e,
         None => return,
     };
-    let body = slot_bytes(&enc, &[0]).unwrap_or_default();
+    let body = cx.body_override.map(|b| b.to_vec()).unwrap_or_else(|| slot_bytes(&enc, &[0]).unwrap_or_default());
     let empty = vec![];
     for aad in aads {
         let want = enc_structure("Encrypt0", &body, aad);
